@@ -78,10 +78,11 @@ Outcome(b, n) ==
     [] b = "task_sched"     -> Val(n + 8)
     [] b = "task_contract"  -> Val(n + 9)
     [] b = "task_sched_then" -> Val(n + 11)
+    [] b = "shared_cached_exc" -> Exc(2)       \* a ready SharedFuture that somebody else also holds (a cache)
 
 \* a behaviour that creates an inner asynchronous object performs that object's own allocation(s)
 InnerAllocs(b) == CASE b \in {"fut_ready", "fut_pending", "fut_err", "shared_ready", "shared_pending",
-                              "task_make", "task_sched", "task_contract"} -> 1
+                              "task_make", "task_sched", "task_contract", "shared_cached_exc"} -> 1
                     [] b = "task_sched_then" -> 2
                     [] OTHER -> 0
 
@@ -174,7 +175,10 @@ Expected(p) ==
     invoked |-> a.invoked,
     ran     |-> a.ran,
     submits |-> a.sub, calls |-> a.calls, drops |-> a.drops,
-    allocs  |-> a.allocs ]
+    allocs  |-> a.allocs,
+    \* flattening a SharedFuture that has another holder must leave that holder's Result intact
+    cache   |-> IF \E k \in 1..Len(a.invoked) : a.invoked[k] > 0 /\ p.steps[a.invoked[k]].beh = "shared_cached_exc"
+                THEN "exc:2" ELSE "-" ]
 
 StepSet == [att : Atts, arg : Args, beh : Behs]
 RejSet  == [Execs -> Rejects]
